@@ -5981,7 +5981,12 @@ class CodegenCtx:
         result.add(f"{self.program_name}_result_t {self.program_name}_feed({start_typename}start, const uint8_t *end, {self.program_name}_state_t *state) {{")
         with result as contents:
             if self._needs_end_check():
-                contents.add(f"if ({'*start' if ProgramData.do(ProgramFlag.INDIRECT_START_PTR) else 'start'} == end) return {self.program_name.upper()}_OK;")
+                start_expr = '*start' if ProgramData.do(ProgramFlag.INDIRECT_START_PTR) else 'start'
+                if self.generic_fail_state in self.dfa.states:
+                    # an empty chunk is not an error, but it doesn't un-fail a failed parser either
+                    contents.add(f"if ({start_expr} == end) return state->state == {self.dfa.states.index(self.generic_fail_state)} ? {self.program_name.upper()}_FAIL : {self.program_name.upper()}_OK;")
+                else:
+                    contents.add(f"if ({start_expr} == end) return {self.program_name.upper()}_OK;")
                 contents.add()
                 # Generate an explicit input check 
             # Generate the `inval` variable
